@@ -215,9 +215,9 @@ def run(chk):
         chk.function(FILE, q, "P")
     only = getattr(chk, "only", None)
     if not only or "proof" in only:
-        kernel_obligations(chk)
+        chk.guard(kernel_obligations)
         from contracts import indexed
-        indexed.obligations(chk, chk.prop)
+        chk.guard(indexed.obligations, chk.prop)
         chk.discharge()
     chk.assume("@njit kernels are verified as their undecorated Python bodies: numba nopython semantics == CPython on these "
                "values (no int64 overflow: array extents < 2**63); float64 treated as the reals")
